@@ -262,11 +262,13 @@ Definition infer_key (c : cache) (key : option Z) (s : sel) : option Z :=
 
 Definition bare (l : list osample) : list (Z * option Z) := map (fun o => (o_key o, o_val o)) l.
 
-Definition call (fixed ul : bool) (q : qos) (f : form) (st0 : state) : state * cres :=
+(* one call: new state, the samples accessed (ghost: bare forms hide their SampleInfo), result *)
+Definition call_g (fixed ul : bool) (q : qos) (f : form) (st0 : state)
+  : state * list osample * cres :=
   let st := fill ul q st0 in
   let c := st_cache st in
-  let fin (p : cache * list osample) (k : list osample -> cres) : state * cres :=
-      (mkSt (fst p) [] (st_next st), k (snd p)) in
+  let fin (p : cache * list osample) (k : list osample -> cres) : state * list osample * cres :=
+      (mkSt (fst p) [] (st_next st), snd p, k (snd p)) in
   match f with
   | FRead max rc => fin (access fixed false c (takeZ max (select_keys c rc))) RVec
   | FTake max rc => fin (access fixed true c (takeZ max (select_keys c rc))) RVec
@@ -280,15 +282,17 @@ Definition call (fixed ul : bool) (q : qos) (f : form) (st0 : state) : state * c
   | FIntoCondIter rc => fin (access fixed true c (takeZ usize_max (select_keys c rc))) (fun l => RBare (bare l))
   | FReadInst max rc key s =>
       match infer_key c key s with
-      | None => (st, RVec [])
+      | None => fin (access fixed false c []) RVec
       | Some k => fin (access fixed false c (takeZ max (select_instance_keys c k rc))) RVec
       end
   | FTakeInst max rc key s =>
       match infer_key c key s with
-      | None => (st, RVec [])
+      | None => fin (access fixed true c []) RVec
       | Some k => fin (access fixed true c (takeZ max (select_instance_keys c k rc))) RVec
       end
   end.
+Definition call (fixed ul : bool) (q : qos) (f : form) (st0 : state) : state * cres :=
+  (fst (fst (call_g fixed ul q f st0)), snd (call_g fixed ul q f st0)).
 
 Definition strip (o : osample) : osample :=
   mkO 0 (o_w o) (o_sn o) (o_key o) (o_val o) (o_read o) (o_new o) (o_alive o) (o_dgen o) (o_ngen o)
